@@ -10,6 +10,7 @@ import (
 	"bufio"
 	"fmt"
 	"io"
+	"os"
 	"os/exec"
 	"strconv"
 	"strings"
@@ -40,7 +41,11 @@ type Solver struct {
 	timeoutMs                                 int
 	log                                       io.Writer
 	lastErr                                   string
+	transcript                                strings.Builder
+	slowDumped                                int
 }
+
+var slowLogDir = os.Getenv("SYMGO_SLOWLOG")
 
 func solverArgv(name string, timeoutMs int) []string {
 	switch name {
@@ -87,6 +92,9 @@ func (s *Solver) Close() {
 }
 
 func (s *Solver) send(str string) {
+	if slowLogDir != "" {
+		s.transcript.WriteString(str)
+	}
 	if s.log != nil {
 		io.WriteString(s.log, str)
 	}
@@ -209,6 +217,10 @@ func (s *Solver) Check(pc []*Term, extra *Term, vars []*Term, wantModel bool) (S
 		model = s.readModel(len(vars))
 	}
 	s.solverTime += time.Since(t0)
+	if slowLogDir != "" && time.Since(t0) > 2*time.Second && s.slowDumped < 3 {
+		s.slowDumped++
+		os.WriteFile(fmt.Sprintf("%s/slow-%d-%d.smt2", slowLogDir, os.Getpid(), s.nQueries), []byte(s.transcript.String()), 0o644)
+	}
 	s.nQueries++
 	switch res {
 	case Sat:
